@@ -645,6 +645,15 @@ func TestTable(t *testing.T) {
 		ir.IsIn(ir.If(ir.Bin(ir.OpEq, ir.Access(C, "a"), ir.Lit(ir.Long(1))), P, R), "T0", bad),
 		ir.Un(ir.OpNot, ir.IsIn(ir.Access(ir.RecE([]string{"e"}, []*ir.Expr{P}), "e"), "T1", bad)),
 		ir.Bin(ir.OpOr, ir.IsIn(ir.If(ir.Is(R, "T1"), P, R), "T1", bad), ir.Is(P, "T0")))
+	// `if <unknown> then X else X`: both branches agree, but the guard can still fail (or be a non-Boolean) once it is bound
+	tt := func() *ir.Expr { return ir.Lit(ir.Bool(true)) }
+	conds = append(conds,
+		ir.If(ir.Access(C, "a"), tt(), tt()),
+		ir.If(ir.Bin(ir.OpLt, ir.Access(C, "a"), ir.Lit(ir.Long(2))), tt(), tt()),
+		ir.If(ir.Bin(ir.OpEq, ir.Access(P, "x"), ir.Lit(ir.Long(1))), tt(), tt()),
+		ir.If(ir.Bin(ir.OpEq, ir.Access(P, "x"), ir.Lit(ir.Long(1))), ir.Is(R, "T1"), ir.Bin(ir.OpEq, R, ir.Lit(ir.Ent("T1", "r")))),
+		ir.Bin(ir.OpEq, ir.If(ir.Access(C, "a"), ir.Lit(ir.Long(7)), ir.Lit(ir.Long(7))), ir.Lit(ir.Long(7))),
+		ir.Un(ir.OpNot, ir.If(ir.Bin(ir.OpIn, P, ir.Access(C, "a")), ir.Lit(ir.Bool(false)), ir.Lit(ir.Bool(false)))))
 	scopes := []func(p *ir.Policy){func(p *ir.Policy) {}, func(p *ir.Policy) { p.Principal = ir.ScopeIn(ir.Ent("T1", "g")) }, func(p *ir.Policy) {
 		p.Principal = ir.ScopeIsIn("T0", ir.Ent("T1", "g"))
 		p.Resource = ir.ScopeEq(ir.Ent("T1", "r"))
@@ -661,7 +670,7 @@ func TestTable(t *testing.T) {
 	store[1].Parents = []ir.Value{ir.Ent("T1", "top")}
 	pc := []ir.Value{ir.Ent("T0", "a"), ir.Ent("T1", "g"), ir.Ent("T0", "zz")}
 	rc := []ir.Value{ir.Ent("T1", "r"), ir.Ent("T0", "a")}
-	ac := []ir.Value{ir.Long(1), ir.Long(2), ir.Str("s")}
+	ac := []ir.Value{ir.Long(1), ir.Long(2), ir.Str("s"), ir.Bool(true)}
 	count := 0
 	for ci, cond := range conds {
 		for si, sc := range scopes {
